@@ -27,7 +27,8 @@ REQUIRED = [
     "judged:sketch-core-shell", "judged:sketch-grid-levels", "judged:shape-core-shell", "judged:shape-grid-levels",
     "judged:file:delete-by-address", "judged:file:chop-location", "judged:file:round-delete",
     "nontrivial:nx-ny-tiers-pairwise-different", "placed:post-transform", "reached:core-op-judged",
-    "reached:shell-op-judged", "judged:deleted-before-the-entity-was-added", "judged:three-level-sketch-core-shell",
+    "reached:shell-op-judged", "judged:deleted-before-the-entity-was-added", "judged:three-level-sketch-core-shell", "judged:operation-deleted-twice",
+    "judged:addresses-of-a-mirrored-entity",
 ]
 RULE = (
     "stack family: base = cb.Grid nx x ny (1..5 x 1..5, random rectangle, placed by random rotate/translate/scale) or "
@@ -183,6 +184,7 @@ def _gen_write(rng, base, con, dims):
     w["delete"] = [list(c) for c in rng.sample(cells, ndel)]
     w["extra"] = rng.choice([None, None, "before", "after"])
     w["delete_first"] = rng.random() < 0.3  # the addressed operations are deleted before the entity is added (assembly is lazy)
+    w["delete_twice"] = rng.random() < 0.3
     if ndel:
         w["mode"] = "all"
     else:
@@ -198,7 +200,11 @@ def _gen_write(rng, base, con, dims):
 def _gen_post(rng):
     if rng.random() < 0.6:
         return []
-    return [t for t in xr.gen_placement(rng, allow_scale=False)] or [{"t": "translate", "v": geom.rand_vec(rng, -5, 5)}]
+    tfs = [t for t in xr.gen_placement(rng, allow_scale=False)] or [{"t": "translate", "v": geom.rand_vec(rng, -5, 5)}]
+    if rng.random() < 0.4:
+        # a mirror (every operation swaps its bottom and top face), anywhere in the sequence
+        tfs.insert(rng.randrange(len(tfs) + 1), {"t": "mirror", "normal": geom.rand_unit(rng).tolist(), "origin": geom.rand_vec(rng, -3, 3)})
+    return tfs
 
 
 ROUND_DIMS = {"OneCoreDisk": [1, 4], "FourCoreDisk": [4, 8], "HalfDisk": [2, 4], "QuarterDisk": [1, 2], "WrappedDisk": [1, 4, 4],
@@ -225,6 +231,8 @@ def gen_stack_case(rng, grid_base=True, container=None, sketch_cls=None):
 def gen_round_case(rng, what=None, cls=None):
     what = what or rng.choice(["sketch", "shape", "shape"])
     post = xr.gen_placement(rng) if rng.random() < 0.5 else []
+    if rng.random() < 0.25:
+        post.insert(rng.randrange(len(post) + 1), {"t": "mirror", "normal": geom.rand_unit(rng).tolist(), "origin": geom.rand_vec(rng, -3, 3)})
     if what == "sketch":
         return {"fam": "round", "what": "sketch", "spec": xr.gen_sketch_spec(rng, cls), "post": post}
     spec = xr.gen_shape_spec(rng, cls)
@@ -425,10 +433,15 @@ def run_stack(ctx, case, cb):
                       f"operations {len(all_ops)}; not the same objects each once")
         return
     located = {}
+    swapped = sum(1 for t in post if t["t"] == "mirror") % 2 == 1
+    if swapped:
+        ctx.count("judged:addresses-of-a-mirrored-entity")
     for (k, l, n) in lat.index:
         op = grid[k][l][n]
         bc = np.asarray(op.bottom_face.point_array, dtype=float).mean(axis=0)
         tc = np.asarray(op.top_face.point_array, dtype=float).mean(axis=0)
+        if swapped:
+            bc, tc = tc, bc  # an odd number of mirrors: every operation has exchanged its bottom and top face
         kb, kt = lat.nearest(lat.bc, bc), lat.nearest(lat.tc, tc)
         located[id(op)] = kb
         ctx.count("judged:grid-address")
@@ -519,6 +532,11 @@ def run_stack(ctx, case, cb):
     if not w.get("delete_first"):
         for (k, l, n) in deleted:
             mesh.delete(grid[k][l][n])
+    if w.get("delete_twice") and deleted:
+        # overlapping selections (two slices that share a corner operation) delete an operation a second time
+        k, l, n = sorted(deleted)[0]
+        mesh.delete(grid[k][l][n])
+        ctx.count("judged:operation-deleted-twice")
     path = util.tmpfile("c19")
     got, err = util.write_outcome(mesh, path, nblocks=len(lat.index))
     try:
